@@ -117,11 +117,11 @@ Proof.
     destruct (is_nil i) eqn:Ei; [reflexivity|].
     rewrite abs_lookup_pf. unfold view, bget. unfold bkey at 1. rewrite (kv_is_nil_app p i Ei).
     destruct (alookup (bkey p i) st); [reflexivity|].
-    destruct (e_veto e); [reflexivity|].
+    destruct (e_veto e); [reflexivity|]. destruct (e_unenc e); [reflexivity|].
     rewrite abs_aset by (apply kv_is_nil_app; exact Ei). reflexivity.
   - destruct (e_wrongtype e); [reflexivity|]. cbn [andb].
     rewrite abs_lookup_pf. unfold view. destruct (bget p st i) eqn:Eb; [|reflexivity].
-    destruct (e_veto e); [reflexivity|].
+    destruct (e_veto e); [reflexivity|]. destruct (e_unenc e); [reflexivity|].
     rewrite abs_aset by (eapply bget_some_nonnil; exact Eb). reflexivity.
   - rewrite abs_lookup_pf. unfold view. destruct (bget p st i) eqn:Eb; [|reflexivity].
     destruct (e_veto e); [reflexivity|]. rewrite abs_adel. reflexivity.
@@ -198,13 +198,17 @@ Definition decide_op (c : scfg) (cur : option val) (o : op) : wr * result * list
       else if is_nil j then (WNone, RPanic, [])
       else match cur with
            | Some _ => (WNone, EDuplicate, [])
-           | None => if s_checks c && e_veto e then (WNone, EVeto, []) else (WSet v, ROk, [(j, None, Some v)])
+           | None => if s_checks c && e_veto e then (WNone, EVeto, [])
+                     else if s_checks c && e_unenc e then (WNone, EEncode, [])
+                     else (WSet v, ROk, [(j, None, Some v)])
            end
   | OUpdate i v e =>
       if s_checks c && e_wrongtype e then (WNone, EType, [])
       else match cur with
            | None => (WNone, ENotFound, [])
-           | Some b => if s_checks c && e_veto e then (WNone, EVeto, []) else (WSet v, ROk, [(j, Some b, Some v)])
+           | Some b => if s_checks c && e_veto e then (WNone, EVeto, [])
+                       else if s_checks c && e_unenc e then (WNone, EEncode, [])
+                       else (WSet v, ROk, [(j, Some b, Some v)])
            end
   | ODelete i e =>
       match cur with
@@ -224,9 +228,10 @@ Proof.
     destruct (is_nil i && negb (s_genid c)); [reflexivity|].
     destruct (is_nil (touch c (OCreate i v e))); [reflexivity|].
     destruct (m !! touch c (OCreate i v e)); [reflexivity|].
-    destruct (s_checks c && e_veto e); reflexivity.
+    destruct (s_checks c && e_veto e); [reflexivity|]. destruct (s_checks c && e_unenc e); reflexivity.
   - cbn [touch]. destruct (s_checks c && e_wrongtype e); [reflexivity|].
-    destruct (m !! i); [|reflexivity]. destruct (s_checks c && e_veto e); reflexivity.
+    destruct (m !! i); [|reflexivity]. destruct (s_checks c && e_veto e); [reflexivity|].
+    destruct (s_checks c && e_unenc e); reflexivity.
   - cbn [touch]. destruct (m !! i); [|reflexivity]. destruct (s_checks c && e_veto e); reflexivity.
   - cbn [touch]. destruct (m !! i); reflexivity.
   - reflexivity.
@@ -257,11 +262,13 @@ Proof.
     destruct (is_nil i && negb (s_genid c)); [inversion H; right; repeat split; congruence|].
     destruct (is_nil (touch c (OCreate i v e))); [inversion H; right; repeat split; congruence|].
     destruct cur; [inversion H; right; repeat split; congruence|].
-    destruct (s_checks c && e_veto e); inversion H; [right; repeat split; congruence|].
+    destruct (s_checks c && e_veto e); [inversion H; right; repeat split; congruence|].
+    destruct (s_checks c && e_unenc e); inversion H; [right; repeat split; congruence|].
     left. repeat split.
   - destruct (s_checks c && e_wrongtype e); [inversion H; right; repeat split; congruence|].
     destruct cur; [|inversion H; right; repeat split; congruence].
-    destruct (s_checks c && e_veto e); inversion H; [right; repeat split; congruence|].
+    destruct (s_checks c && e_veto e); [inversion H; right; repeat split; congruence|].
+    destruct (s_checks c && e_unenc e); inversion H; [right; repeat split; congruence|].
     left. repeat split.
   - destruct cur; [|inversion H; right; repeat split; congruence].
     destruct (s_checks c && e_veto e); inversion H; [right; repeat split; congruence|].
@@ -333,7 +340,7 @@ Qed.
 Lemma wrongtype_or_veto_fails_pf : forall c m o m' r cbs,
   s_checks c = true ->
   match o with
-  | OCreate _ _ e | OUpdate _ _ e => e_wrongtype e || e_veto e
+  | OCreate _ _ e | OUpdate _ _ e => e_wrongtype e || e_veto e || e_unenc e
   | ODelete _ e => e_veto e
   | _ => false
   end = true ->
@@ -342,12 +349,14 @@ Proof.
   intros c m o m' r cbs Hc Hf H.
   assert (Hr : is_failure r = true).
   { destruct o as [i v e|i v e|i e|i|i]; try discriminate; cbn [spec_step] in H; rewrite Hc in H; cbn [andb] in H.
-    - destruct (e_wrongtype e); [inversion H; reflexivity|]. cbn [orb] in Hf. rewrite Hf in H.
+    - destruct (e_wrongtype e); [inversion H; reflexivity|]. cbn [orb] in Hf.
       destruct (is_nil i && negb (s_genid c)); [inversion H; reflexivity|].
       destruct (is_nil (touch c (OCreate i v e))); [inversion H; reflexivity|].
-      destruct (m !! touch c (OCreate i v e)); inversion H; reflexivity.
-    - destruct (e_wrongtype e); [inversion H; reflexivity|]. cbn [orb] in Hf. rewrite Hf in H.
-      destruct (m !! i); inversion H; reflexivity.
+      destruct (m !! touch c (OCreate i v e)); [inversion H; reflexivity|].
+      destruct (e_veto e); [inversion H; reflexivity|]. cbn [orb] in Hf. rewrite Hf in H. inversion H; reflexivity.
+    - destruct (e_wrongtype e); [inversion H; reflexivity|]. cbn [orb] in Hf.
+      destruct (m !! i); [|inversion H; reflexivity].
+      destruct (e_veto e); [inversion H; reflexivity|]. cbn [orb] in Hf. rewrite Hf in H. inversion H; reflexivity.
     - rewrite Hf in H. destruct (m !! i); inversion H; reflexivity. }
   split; [exact Hr|]. eapply failed_changes_nothing_pf; eassumption.
 Qed.
@@ -373,10 +382,10 @@ Proof.
       destruct (is_nil i && negb (s_genid c)); [discriminate|].
       destruct (is_nil (touch c (OCreate i v e))); [discriminate|].
       destruct (m !! touch c (OCreate i v e)); [discriminate|].
-      destruct (s_checks c && e_veto e); inversion Ed. reflexivity.
+      destruct (s_checks c && e_veto e); [discriminate|]. destruct (s_checks c && e_unenc e); inversion Ed. reflexivity.
     + destruct (s_checks c && e_wrongtype e); [discriminate|].
       destruct (m !! touch c (OUpdate i v e)); [|discriminate].
-      destruct (s_checks c && e_veto e); inversion Ed. reflexivity.
+      destruct (s_checks c && e_veto e); [discriminate|]. destruct (s_checks c && e_unenc e); inversion Ed. reflexivity.
     + destruct (m !! touch c (ODelete i e)); [|discriminate].
       destruct (s_checks c && e_veto e); inversion Ed. reflexivity.
 Qed.
@@ -660,9 +669,9 @@ Qed.
 Lemma spec_bc_stage_pf : forall c nl m o m' r cbs,
   s_checks c = true -> spec_step c m o = (m', r, cbs) ->
   (is_mutation o = true /\
-   r = (if Nat.eqb (vetoat_of o) 0 then ROk else EVeto) /\
+   r = (if negb (Nat.eqb (vetoat_of o) 0) then EVeto else if unenc_of o then EEncode else ROk) /\
    spec_bc c nl m o = bc_calls nl (vetoat_of o) (touch c o) (m !! touch c o) (after_of o)) \/
-  (r <> ROk /\ r <> EVeto /\ spec_bc c nl m o = []).
+  (r <> ROk /\ r <> EVeto /\ r <> EEncode /\ spec_bc c nl m o = []).
 Proof.
   intros c nl m o m' r cbs Hc H. unfold spec_bc. rewrite Hc. cbn [negb].
   destruct o as [i v e|i v e|i e|i|i]; cbn [spec_step] in H; rewrite ?Hc in H; cbn [andb] in H;
@@ -671,14 +680,16 @@ Proof.
     destruct (is_nil i && negb (s_genid c)); [inversion H; right; repeat split; congruence|].
     destruct (is_nil (touch c (OCreate i v e))); [inversion H; right; repeat split; congruence|].
     destruct (m !! touch c (OCreate i v e)) eqn:El; [inversion H; right; repeat split; congruence|].
-    left. unfold e_veto in H. split; [reflexivity|].
-    destruct (Nat.eqb (e_vetoat e) 0); cbn [negb] in H; inversion H; split; reflexivity.
+    left. unfold e_veto in H. cbn [unenc_of]. split; [reflexivity|].
+    destruct (Nat.eqb (e_vetoat e) 0); cbn [negb] in H; [|inversion H; split; reflexivity].
+    destruct (e_unenc e); inversion H; split; reflexivity.
   - destruct (e_wrongtype e); [inversion H; right; repeat split; congruence|]. cbn [touch].
     destruct (m !! i) eqn:El; [|inversion H; right; repeat split; congruence].
-    left. unfold e_veto in H. split; [reflexivity|].
-    destruct (Nat.eqb (e_vetoat e) 0); cbn [negb] in H; inversion H; split; reflexivity.
+    left. unfold e_veto in H. cbn [unenc_of]. split; [reflexivity|].
+    destruct (Nat.eqb (e_vetoat e) 0); cbn [negb] in H; [|inversion H; split; reflexivity].
+    destruct (e_unenc e); inversion H; split; reflexivity.
   - cbn [touch]. destruct (m !! i) eqn:El; [|inversion H; right; repeat split; congruence].
-    left. unfold e_veto in H. split; [reflexivity|].
+    left. unfold e_veto in H. cbn [unenc_of]. split; [reflexivity|].
     destruct (Nat.eqb (e_vetoat e) 0); cbn [negb] in H; inversion H; split; reflexivity.
   - right. destruct (m !! i); inversion H; repeat split; congruence.
   - right. inversion H; repeat split; congruence.
